@@ -168,9 +168,17 @@ def oracle(case, stats):
 @st.composite
 def random_case(draw, tier="quick"):
     spec = draw(gen_atoms.typed_structure(min_atoms=2, max_atoms=12 if tier == "quick" else 40, max_terms=8))
+    if draw(st.integers(0, 11)) == 0:
+        spec = gen_atoms.inflate(spec, draw(st.sampled_from([150, 300])) // len(spec["pos"]) + 1)
     n = len(spec["pos"])
-    k = draw(st.integers(1, n))
-    sub = list(draw(st.permutations(range(n))))[:k]
+    if n > 60:
+        # a few deletions spread over a large structure, always including high indices
+        sub = sorted(draw(st.sets(st.integers(0, n - 1), min_size=1, max_size=6)) | {n - 1 - draw(st.integers(0, 3))})
+        sub = [sub[i] for i in draw(st.permutations(range(len(sub))))]
+        k = len(sub)
+    else:
+        k = draw(st.integers(1, n))
+        sub = list(draw(st.permutations(range(n))))[:k]
     op = draw(st.sampled_from(["del", "del", "del", "pop", "del2"]))
     case = {"spec": spec, "op": op}
     if op == "del":
@@ -188,12 +196,14 @@ def random_case(draw, tier="quick"):
             case["op"] = "del"
             case["indices"] = sub[:1]
         else:
-            case["second"] = list(draw(st.permutations(range(rest))))[:draw(st.integers(1, rest))]
+            case["second"] = list(draw(st.permutations(range(rest))))[:draw(st.integers(1, rest))] if rest <= 60 else \
+                sorted(draw(st.sets(st.integers(0, rest - 1), min_size=1, max_size=4)))
     return case
 
 
 def random_oracle(case, stats):
     oracle(case, stats)
+    stats.count("atoms:%s" % ("<=40" if len(case["spec"]["pos"]) <= 40 else "128+" if len(case["spec"]["pos"]) >= 128 else "41-127"))
     gen_atoms.spec_stats(case["spec"], stats)
 
 
